@@ -233,6 +233,7 @@ def check(prog, rep):
            f"the pivot atom is rotated in {pivot_moved[:3]}", f"pdb2pqr/residue.py:{gm.lineno} (get_moveable_names)")
 
     selection_history_free(prog, r1, gm_info)
+    flip_twins(prog, r1, t, model, backbone, rank, moved_names)
 
     # ------------------------------------------------------------------ R2
     r2 = rep.rule("R2", "coordinates are written only by constructors, on fresh atoms, or by the two rigid movers", floor=15)
@@ -319,6 +320,21 @@ def check(prog, rep):
     later = [s for st in ta.body[ta.body.index(switches[-1]) + 1:] for s in iter_stmts([st]) if isinstance(s, ast.Assign)
              and U(s.targets[0]) in ("args.debump", "args.opt") and U(s.value) != "False"] if switches else []
     ok = bool(switches) and not later
+    # the two switches are never turned ON by code: only the user's options (argparse) enable the movers
+    turned_on = []
+    for key_, f_ in prog.funcs.items():
+        for s_ in iter_stmts(f_.node.body):
+            tgts = s_.targets if isinstance(s_, ast.Assign) else [s_.target] if isinstance(s_, (ast.AugAssign, ast.AnnAssign)) else []
+            for tg in tgts:
+                if isinstance(tg, ast.Attribute) and tg.attr in ("debump", "opt") and isinstance(tg.value, ast.Name) and tg.value.id in ("args", "options", "namespace") \
+                        and not (isinstance(s_.value, ast.Constant) and s_.value.value is False):
+                    turned_on.append(f"{f_.module.rel}:{s_.lineno} {U(s_)[:40]}")
+        for c_ in calls_in(f_.node):
+            if U(c_.func) == "setattr" and len(c_.args) == 3 and isinstance(c_.args[1], ast.Constant) and c_.args[1].value in ("debump", "opt"):
+                turned_on.append(f"{f_.module.rel}:{c_.lineno} {U(c_)[:40]}")
+    r3.add("switches-never-set-by-code", not turned_on, "no statement sets args.debump / args.opt to anything but False" if not turned_on else
+           f"code enables a mover the user switched off (--nodebump/--noopt no longer guarantee that heavy atoms stay): {turned_on}",
+           f"pdb2pqr/main.py:{ta.lineno} (transform_arguments)")
     r3.add("assign-only/clean-switch-off", ok, "transform_arguments clears debump and opt under --assign-only/--clean",
            f"pdb2pqr/main.py:{ta.lineno} (transform_arguments)")
     md = prog.func("main.py", "main_driver").node
@@ -347,6 +363,89 @@ def check(prog, rep):
 
 
 MEMBERSHIP_MUTATORS = {"append", "remove", "insert", "pop", "extend", "clear"}
+
+
+def flip_twins(prog, r1, t, model, backbone, rank, moved_names):
+    """A Flip pre-rotates the residue by 180 degrees and keeps a *FLIP twin at the old position of every atom it caches.
+    When the un-flipped state wins the twins are what survives, so the cached names must be exactly the atoms the rotation
+    moves - at every chain position."""
+    import xml.etree.ElementTree as ET
+    fi = prog.func("hydrogens/structures.py", "Flip.__init__")
+    fn = fi.node
+    where = f"pdb2pqr/hydrogens/structures.py:{fn.lineno} (Flip.__init__)"
+    cache = None
+    for k, st in enumerate(fn.body):
+        if isinstance(st, ast.For) and any(isinstance(x, ast.Assign) and isinstance(x.targets[0], ast.Subscript) and "coords" in U(x.value)
+                                           for x in iter_stmts(st.body)):
+            cache = (k, st)
+            break
+    if cache is None:
+        raise AnalysisError("Flip.__init__: the loop that caches the coordinates of the atoms to be flipped was not found")
+    k_cache, loop = cache
+    hyd = ET.parse(t.dat / "HYDROGENS.xml").getroot()
+    flips = [(c.findtext("name"), c.findtext("optangle")) for c in hyd.iter("class") if c.findtext("opttype") == "Flip"]
+    if not flips:
+        raise AnalysisError("HYDROGENS.xml defines no Flip class")
+    params = [a.arg for a in fn.args.args]
+    n = 0
+    for R, dih in flips:
+        if R not in t.map:
+            continue
+        for pos, (shape, nn, nc) in POSITIONS.items():
+            res = model.residue(R)
+            chain = [model.residue("ALA") if ch == "X" else res for ch in shape]
+            model.assign_termini(chain, neutraln=nn, neutralc=nc)
+            model.peptide_patch(res)
+            ref = res["__ref__"]
+            adj = bond_graph(ref)
+            for p in PSEUDO:
+                if p in adj:
+                    for v in adj.pop(p):
+                        adj[v].discard(p)
+            names = dih.split()
+            if any(x not in adj for x in names):
+                continue
+            dist = bfs(adj, "CA")
+            ranks = {a: rank(a, bool(res["is_n_term"]), bool(res["is_c_term"]), dist.get(a)) for a in adj}
+            pivot = names[2]
+            moved = moved_names(adj, ranks, pivot)
+            order = [a for a in ref.atoms if a in moved]
+
+            def hook(interp, call, order=order, pivot=pivot):
+                nm = U(call.func)
+                if nm.endswith(".get_moveable_names"):
+                    got = interp.ev(call.args[0])
+                    if got != pivot:
+                        raise AnalysisError(f"Flip.__init__ asks for the atoms beyond {got!r}; the flip rotates about {pivot!r}")
+                    return list(order)
+                if isinstance(call.func, ast.Attribute) and call.func.attr in ("split", "index"):
+                    base = interp.ev(call.func.value)
+                    return getattr(base, call.func.attr)(*[interp.ev(a) for a in call.args])
+                if nm in ("len", "list", "set", "sorted", "tuple"):
+                    return {"len": len, "list": list, "set": list, "sorted": sorted, "tuple": tuple}[nm](*[interp.ev(a) for a in call.args])
+                raise AnalysisError(f"Flip.__init__: unsupported call {nm!r} before the coordinate cache")
+
+            resobj = {"name": R, "is_c_term": bool(res["is_c_term"]), "is_n_term": bool(res["is_n_term"]), "patches": list(res["patches"]),
+                      "__res__": True}
+            env = {params[0]: {"__flip__": True}, params[1]: resobj, params[2]: {"optangle": dih, "__opt__": True},
+                   params[3]: {"__routines__": True}}
+            it = Interp(env, call_hook=hook, loop_hook=model.loop_hook())
+            it.run(fn.body[:k_cache])
+            cached = it.ev(loop.iter)
+            if isinstance(cached, dict):
+                cached = list(cached)
+            if not isinstance(cached, (list, tuple)):
+                raise AnalysisError("Flip.__init__: the cached name list is not determined by the topology")
+            n += 1
+            lost = sorted(set(moved) - set(cached))
+            extra = sorted(set(cached) - set(moved))
+            r1.add(f"flip-twins|{R}:{pos}", not lost and not extra,
+                   f"{R} at {pos}: the flip about {names[1]}-{pivot} moves {sorted(moved)} and caches {sorted(cached)}" +
+                   (f" -- {lost} are rotated but get no *FLIP twin: when the un-flipped state is kept they stay rotated while the rest of the "
+                    "group returns (bond lengths and angles inside the residue collapse)" if lost else "") +
+                   (f" -- {extra} are twinned although the rotation does not move them" if extra else ""), where)
+    if not n:
+        raise AnalysisError("no Flip instance could be evaluated")
 
 
 def _self_state_writes(fn):
